@@ -77,7 +77,7 @@ var spvVersions = []spirv.Version{spirv.Version1_0, spirv.Version1_1, spirv.Vers
 
 // riskyKnobs: generator features that hit a recorded defect of the SPIR-V path; each is enabled alone
 // in a share of the programs so that the finding keeps being reproduced and everything else stays clean.
-var riskyKnobs = []string{"rawShift", "clz", "privInit", "swBreak", "absU", "vecInit", "fround", "f2iRange", "bitField"}
+var riskyKnobs = []string{"rawShift", "clz", "privInit", "swBreak", "absU", "vecInit", "fround", "f2iRange", "bitField", "frem"}
 
 func setKnob(o *wgenOpts, k string) {
 	o.negInit, o.vecInit, o.rawShift, o.clz, o.privInit, o.swBreak, o.absU, o.shadowUse = false, false, false, false, false, false, false, false
@@ -85,7 +85,10 @@ func setKnob(o *wgenOpts, k string) {
 	o.fround = true // SPIR-V: GLSL.std.450 RoundEven since fix 487639f
 	o.f2iRange = false
 	o.bitField = false
+	o.frem = false
 	switch k {
+	case "frem":
+		o.frem, o.floats = true, true
 	case "bitField":
 		o.bitField = true
 	case "f2iRange":
